@@ -4,7 +4,7 @@ The same transition system as C02, now with faults (`fate x = die` kills the wor
 `x` up, `reject` is a parser error) and the `rxMain` parameter: `true` is the original code (main
 keeps its own Receiver while waiting), `false` the repaired code.
 -/
-import GrcovModel.Lemmas.Pipeline
+import GrcovModel.Props.C02
 namespace Grcov.Props.C07
 open Grcov.Pipeline
 
@@ -38,6 +38,34 @@ theorem C07_runs_are_finite (fate : Item → Fate) (n : Nat) (rx : Bool) (items 
       | zero => rfl
       | succ k ih => simp [List.replicate_succ, wWeight] at ih ⊢; omega
     simp [mu, init, mainWeight, wWeight]; omega
+  omega
+
+/-- If a worker thread died, the process cannot end with status 0 (it ends with a non-zero status
+as soon as it terminates, which `C07_no_deadlock` and `C07_runs_are_finite` guarantee). -/
+theorem C07_dead_worker_nonzero_exit (fate : Item → Fate) (n : Nat) (hn : 1 ≤ n) (rx : Bool)
+    (items : List Item) (tr : List Step) (s : State) (h : Run fate (init n rx items) tr s)
+    (j : Nat) (hj : s.workers.getD j .idle = .dead) : s.mainPc ≠ .done 0 := by
+  intro hd
+  have hi := run_flowInv h (flowInv_init fate n rx items)
+  have hnn : s.n = n := (run_n h).1
+  have hlen := hi.stop.1
+  by_cases hjl : j < s.workers.length
+  · have := hi.joined j (by rw [hd]; simp only; omega)
+    rw [this] at hj; cases hj
+  · rw [List.getD_eq_getElem?_getD, List.getElem?_eq_none (Nat.le_of_not_lt hjl)] at hj
+    simp at hj
+
+/-- A rejected input contributes nothing and loses nothing else: at exit 0 the merged items are
+exactly the inputs whose parse succeeds (as a multiset), whatever was rejected. -/
+theorem C07_rejected_contribute_nothing (fate : Item → Fate) (n : Nat) (hn : 1 ≤ n) (rx : Bool)
+    (items : List Item) (tr : List Step) (s : State) (h : Run fate (init n rx items) tr s)
+    (hd : s.mainPc = .done 0) (x : Item) (hx : fate x = .ok) :
+    s.merged.count x = items.count x := by
+  obtain ⟨hp, _, hr⟩ := Grcov.Props.C02.C02_exactly_once fate n hn rx items tr s h hd
+  have hc := hp.count_eq x
+  rw [List.count_append] at hc
+  have : s.rejected.count x = 0 := by
+    rw [List.count_eq_zero]; intro hm; have := hr x hm; rw [hx] at this; cases this
   omega
 
 /-- non-vacuity of the repaired behaviour on the deadlock scenario: the same inputs and fault now
